@@ -265,6 +265,11 @@ func genFlatSearch(r *core.Rand, dim int, pool [][]float32, ids []uint32, next u
 	return cmd
 }
 
+// vecErr names the outcome of a call: "ok", or the CLASS of the error it returned. The class is
+// informational only (it is histogrammed into the evidence): apart from the exported sentinel
+// ErrZeroVector it is guessed from the message text, which no property constrains, so the drivers
+// compare outcomes as success / failure only (Proto.lean, sameOutcome). Every class but "ok"
+// means "the call failed"; a reworded message merely lands in "other".
 func vecErr(err error) string {
 	switch {
 	case err == nil:
